@@ -14,6 +14,7 @@ import subprocess
 from concurrent.futures import ThreadPoolExecutor
 
 from .. import common as C
+from .. import memmodel as M
 
 PROP = "C19"
 # cpu, bytes per address, big endian
@@ -292,6 +293,7 @@ def run(tier, seed):
             ev.update(extra.get(cid, {}))
             events.append(ev)
     fevents, fmeta = fetch_part(chk, vdir, rd, wd, tier, rnd)
+    nimg, nimgcan = M.run_image(chk, tier, seed, rnd, PROP)
     events += fevents
     canaries = set()
     for e in rnd.sample([x for x in fevents if len(x["cmds"]) == 1], 6):
@@ -354,13 +356,13 @@ def run(tier, seed):
                    "naken_util -%s: the dump of command %d differs from the model\n%s" % (cpu, v["at"], script),
                    dict(script=script, at=v["at"], expect=v["expect"]))
     chk.cov.update(dict(
-        evaluations=len(jobs) + len(fevents), fetch_cases=len(fevents),
+        evaluations=len(jobs) + len(fevents) + nimg, fetch_cases=len(fevents), image_scripts=nimg,
         distinct_nontrivial=len({m[4] for m in meta.values()}),
         rule="GenUtil draws sessions of 2-6 write/write16/write32/print/print16/print32/asm commands (8 addresses incl. row and page "
              "boundaries, 10 values, ranges a-b); rendered with rotating number spellings (0x10, 10h, 16) for msp430, 68000, avr8, "
              "propeller; every session is non-trivial; distinct by script",
-        traces_validated_against_impl=len(events) - len(canaries),
-        canaries=dict(injected=len(canaries), rejected=len(canaries)), exhaustive=False))
+        traces_validated_against_impl=len(events) - len(canaries) + nimg,
+        canaries=dict(injected=len(canaries) + nimgcan, rejected=len(canaries) + nimgcan), exhaustive=False))
     chk.samples = [meta[c][4] for c in rnd.sample(sorted(meta), 3)]
     chk.assumptions = ["interactive asm blocks hold data directives (and one load-immediate instruction in the fetch cases); symbol names appear in ranges only; "
                        "disasm ranges and -address are exercised by C08",
